@@ -373,6 +373,43 @@ def rule_union(ctx, F):
     ctx.floor("reads of non-terminal union members in the accessors", n, 8)
 
 
+def rule_trailing_extras(ctx, F):
+    """X1: the extras re-pushed after a reduction are those of the children that were kept.  ts_parser__reduce strips
+    trailing extras of the first path into `trailing_extras` and of every alternative path into `trailing_extras2`; when
+    an alternative is selected the *old* extras are released first and only then the two arrays are swapped.  Releasing
+    after the swap frees the extras of the selected path: their bytes vanish from the tree and every later node is
+    placed too early (the tree no longer tiles the text)."""
+    fn = ctx.need_fn(F, "ts_parser__reduce", "X1")
+    if not fn:
+        return
+    swap = [pt for pt, n in find(fn, "array_swap(&self->trailing_extras, &self->trailing_extras2)")] or \
+           [pt for pt, c in fn.calls() if callee_name(c) in ("_array__swap",) and "trailing_extras" in show(c)]
+    clear = [pt for pt, n in find(fn, "ts_subtree_array_clear(&self->tree_pool, &self->trailing_extras)")]
+    fill = [pt for pt, n in find(fn, "ts_subtree_array_remove_trailing_extras(_, &self->trailing_extras)")]
+    push = [pt for pt, c in fn.calls() if callee_name(c) == "ts_stack_push" and "trailing_extras" in show(c)]
+    fill2 = [pt for pt, n in find(fn, "ts_subtree_array_remove_trailing_extras(_, &self->trailing_extras2)")]   # a further alternative: the current extras are "old" again
+    if not swap or not clear or not fill or not push:
+        ctx.bad("X1", "ts_parser__reduce:trailing-extras-anchors", "ts_parser__reduce no longer has the fill / clear / swap / re-push of trailing_extras (found %d/%d/%d/%d)" % (len(fill), len(clear), len(swap), len(push)))
+        return
+    ctx.before("X1", "ts_parser__reduce:old-extras-released-before-swap", fn, swap, clear, "the rejected path's extras are released before the arrays are swapped", reset_pts=fill + swap)
+
+    class NoClearAfterSwap(Monitor):
+        def elem(self, m, pt, e, s):
+            if pt in swap:
+                return 1
+            if pt in clear and m == 1:
+                return Viol("releases trailing_extras after the swap, i.e. the extras of the path that was just selected", pt)
+            if pt in push or pt in fill or pt in fill2:
+                return 0
+            return m
+    sr = Search(fn, NoClearAfterSwap())
+    v = sr.run(0)
+    if v is None:
+        ctx.ok("X1", "ts_parser__reduce:selected-extras-survive", "between the swap and the re-push nothing releases trailing_extras (%d states)" % sr.states)
+    else:
+        ctx.bad("X1", "ts_parser__reduce:selected-extras-survive", "ts_parser__reduce %s (%s): a comment between the node's last child and the reducing token disappears from the tree and all later positions shift" % (v.msg, fn.loc(v.pt)))
+
+
 def run(ctx):
     for cfg in configs(ctx):
         ctx.config = cfg
@@ -386,6 +423,7 @@ def run(ctx):
         rule_merge(ctx, F)
         rule_tiling(ctx, F)
         rule_union(ctx, F)
+        rule_trailing_extras(ctx, F)
         # a reused EOF leaf ends the tree: its range veto must look to the end of the file (shared with C01.P6)
         import C01
         C01.rule_saturation(ctx, F)
